@@ -102,7 +102,7 @@ func impl(in hv.Val) hv.Val {
 
 var methods = []string{"GET", "GET", "POST", "POST", "PUT", "HEAD", "DELETE", "OPTIONS", "get", "M-SEARCH", "CONNECT"}
 var connectTargets = []string{"h.example:443", "h:1", "h", "/p", "h:", ":1", "h.example:443/p", "*", "H:1"}
-var badMethods = []string{"G(T", "", "GE\tT", "P@ST", "GET:"}
+var badMethods = []string{"G(T", "", "GE\tT", "P@ST", "GET:", "G\xc3\x89T", "GET\xff", "\xe2\x84\xaa", "CONNE\xc4\x86T", "GE\xc5\xa4"}
 var targets = []string{"/", "/", "/a", "/a/b?x=1&y=2", "*", "/index.html", "/p;v=1", "/x?q=a+b", "/~u/:x",
 	"http://h.example/p", "http://h.example:8080/", "http://a-b.c", "http://h:80/x?y", "/a%20b", "//x/y", "/a#f"}
 var oddTargets = []string{ "/a%2", "/a%zz", "/%", "/a?q=%zz", "/a%41?%", "/a#f", "//x/y", "/a\x80", "/a\x7fb", "/a\x01",
@@ -111,15 +111,24 @@ var oddTargets = []string{ "/a%2", "/a%zz", "/%", "/a?q=%zz", "/a%41?%", "/a#f",
 	"/" + "012345678901234567890123456789012345678901234567890123456789"}
 var versions = []string{"HTTP/1.1", "HTTP/1.1", "HTTP/1.1", "HTTP/1.1", "HTTP/1.0"}
 var oddVersions = []string{"HTTP/+1.1", "HTTP/01.1", "HTTP/1.10", "HTTP/2.0", "HTTP/1", "HTTX/1.1", "HTTP/1.1 ",
-	"HTTP/-0.9", "http/1.1", "HTTP/1.+1", "HTTP/1000001.0", "HTTP/1.1x", "HTTP/.1", "HTTP/1.", "HTTP/0.9", "HTTP/-1.0"}
+	"HTTP/-0.9", "http/1.1", "HTTP/1.\xd9\xa1", "HTTP/\xef\xbc\x91.1", "HTTP/1.1\xc2\xa0", "\xc8\x9eTTP/1.1", "HTTP/1\xef\xbc\x8e1", "HTTP/1.+1", "HTTP/1000001.0", "HTTP/1.1x", "HTTP/.1", "HTTP/1.", "HTTP/0.9", "HTTP/-1.0"}
 var otherNames = []string{"X-A", "x-b", "Accept", "user-agent", "Connection", "Cookie", "X_u", "Te", "content-type", "X-A"}
 var otherValues = []string{"v", "a b", "close", "keep-alive", "text/plain; q=1", "", "a,b", "x:y", "1", "\x80\xff"}
-var clValues = []string{"%d", "%d", "%d", "%d", "+%d", " %d ", "0%d", "%d\t", "-%d", "%d, %d", "\v%d", "%d\r", "", " ", "0x%d",
+var clValues = []string{"%d", "%d", "%d", "%d", "\xc2\xa0%d", "%d\xc2\x85", "\xe3\x80\x80%d", "%d\xe2\x80\xa8", "\xef\xbc\x93", "\xd9\xa3",
+	"%d\xff", "\xc2%d", "\x0c%d", "+%d", " %d ", "0%d", "%d\t", "-%d", "%d, %d", "\v%d", "%d\r", "", " ", "0x%d",
 	"%d.0", "9223372036854775807", "9223372036854775808", "99999999999999999999", "-0", "+0", "%d %d"}
-var teValues = []string{"chunked", "chunked", "chunked", "Chunked", " chunked ", "CHUNKED", "identity", "chunKed", "chunked\r", "\x0bchunked", "identity, chunked",
+var teValues = []string{"chunked", "chunked", "chunked", "Chunked", " chunked ", "CHUNKED",
+	"chun\xe2\x84\xaaed", "CHUN\xe2\x84\xaaED", "chunked\xc2\xa0", "\xc2\xa0chunked", "\xe3\x80\x80chunked", "chunked\xff", "chunked\xc2\x85",
+	"\xc4\xb1dentity", "\xc4\xb0DENTITY, chunked", "identity", "chunKed", "chunked\r", "\x0bchunked", "identity, chunked",
 	"chunked, identity", "gzip, chunked", "chunked, gzip", "gzip", "chunked, chunked", "", ",chunked", "chunked,",
 	"identity,gzip", "\tchunked", "chunked\v", "xchunked", "chunked;q=1", "identity, identity", "chunked , identity, gzip"}
-var trailerValues = []string{"X-T", "X-T, X-U", "Content-Length", "x-t, transfer-encoding", "trailer", "", " ", "X-T,"}
+var trailerValues = []string{"X-T", "X-T, X-U", "Content-Length", "\xc2\xa0Content-Length", "Content-Length\xc2\xa0", "X-T,\x0bTrailer",
+	"Tran\xc5\xbffer-Encoding", "Content-\xe2\x84\xaa", "Content-Length\xff", "CONTENT-LENGTH", "X-T,\ttransfer-encoding\r", "x-t, transfer-encoding", "trailer", "", " ", "X-T,"}
+
+// UTF-8 sequences whose Unicode lower / upper / fold mapping or white-space status could be confused with
+// ASCII by strings.ToLower / EqualFold / TrimSpace, non-ASCII digits, and invalid UTF-8
+var uni = []string{"\xe2\x84\xaa", "\xc5\xbf", "\xc4\xb0", "\xc4\xb1", "\xc2\xa0", "\xc2\x85", "\xe3\x80\x80", "\xe2\x80\xa8",
+	"\xef\xbc\x93", "\xd9\xa3", "\xff", "\xc3", "\x80", "\xe2\x84"}
 
 func alnum(r *hv.Rng, n int) string {
 	const cs = "abcdefghijklmnopqrstuvwxyz0123456789"
@@ -409,6 +418,15 @@ func genRequest(r *hv.Rng, odd *[]string) string {
 		*odd = append(*odd, "nontoken")
 	case 4:
 		lines = append(lines, "X-CR: a\rb\r\n")
+	case 5: // names that only a Unicode-aware case mapping would take for framing headers
+		body2 := "0\r\n\r\n" + smuggled
+		lines = append(lines, r.Pick([]string{"Tran\xc5\xbffer-Encoding: chunked\r\n", "Content-Length\xc2\xa0: 3\r\n", "\xe2\x84\xaaeep-Alive: x\r\n",
+			"Ho\xc5\xbft: evil\r\n", "Content-Len\xc7th: 1\r\n", "TRAN\xc5\xbfFER-ENCODING: chunked\r\n"}),
+			fmt.Sprintf("Content-Length: %d\r\n", len(body2)))
+		body = body2
+		*odd = append(*odd, "uni-name")
+	case 6:
+		lines = append(lines, "Pragma: "+r.Pick([]string{"NO-CACHE", "no-cache\xc2\xa0", "no-\xe2\x84\xaaache", "no-cache"})+"\r\n")
 	}
 	// shuffle the header lines
 	for i := len(lines) - 1; i > 0; i-- {
@@ -464,6 +482,11 @@ func gen(r *hv.Rng, i int, tier string) (string, hv.Val) {
 		c := []byte{' ', '\t', '\r', '\n', 0x0b, 0x0c, ':', ','}[r.Intn(8)]
 		s = append(s[:p:p], append([]byte{c}, s[p:]...)...)
 		odd = append(odd, "ins")
+	case 3: // insert a non-ASCII sequence anywhere
+		p := r.Intn(len(s) + 1)
+		u := []byte(r.Pick(uni))
+		s = append(s[:p:p], append(u, s[p:]...)...)
+		odd = append(odd, "uni-ins")
 	case 2: // delete a byte
 		if len(s) > 0 {
 			p := r.Intn(len(s))
